@@ -66,6 +66,32 @@ Theorem C19_gen_reshape :
 Proof. exact (conj gen_reshape_C (conj gen_reshape_F gen_resolve_shape)). Qed.
 Print Assumptions C19_gen_reshape.
 
+(* the cap carried by a constructed result (it decides what a LATER + * @ on that result computes):
+   every Matrix(...) built by these methods receives max_bits = the source says self.max_bits *)
+Theorem C19_gen_max_bits :
+  (forall a b ws s,
+     maxb (mtranspose a) = transpose_maxbits_gen (bits a) (maxb a) /\
+     maxb (mreversed a) = reversed_maxbits_gen (bits a) (maxb a) /\
+     maxb (mcopy a) = copy_maxbits_gen (bits a) (maxb a) /\
+     maxb (madd a b) = add_maxbits_gen (bits a) (maxb a) /\
+     maxb (msub a b) = sub_maxbits_gen (bits a) (maxb a) /\
+     maxb (mmul a b) = mul_maxbits_gen (bits a) (maxb a) /\
+     maxb (mscal a ws s) = mul_maxbits_gen (bits a) (maxb a) /\
+     maxb (mmatmul a b) = matmul_maxbits_gen (bits a) (maxb a)) /\
+  (forall a nr nc o res, mreshape a nr nc o = Some res -> maxb res = reshape_maxbits_gen (bits a) (maxb a)) /\
+  (forall a kr kc res, mgetitem a kr kc = Some res -> maxb res = getitem_maxbits_gen (bits a) (maxb a)) /\
+  (forall bits max_bits, reshape_maxbits_gen bits max_bits = max_bits /\ getitem_maxbits_gen bits max_bits = max_bits /\
+     transpose_maxbits_gen bits max_bits = max_bits /\ copy_maxbits_gen bits max_bits = max_bits /\
+     add_maxbits_gen bits max_bits = max_bits /\ mul_maxbits_gen bits max_bits = max_bits /\
+     matmul_maxbits_gen bits max_bits = max_bits /\ sub_maxbits_gen bits max_bits = max_bits /\
+     reversed_maxbits_gen bits max_bits = max_bits).
+Proof.
+  exact (conj gen_max_bits (conj gen_max_bits_reshape (conj gen_max_bits_getitem
+         (fun _ _ => conj eq_refl (conj eq_refl (conj eq_refl (conj eq_refl (conj eq_refl (conj eq_refl
+                     (conj eq_refl (conj eq_refl eq_refl))))))))))).
+Qed.
+Print Assumptions C19_gen_max_bits.
+
 (* ---------------------------------------------------------------- WireVector <-> Matrix *)
 Theorem C19_layout_inverse :
   (forall b l, 0 <= b -> all_inrange b l ->
